@@ -63,7 +63,11 @@ func buildGroovyMap(pathExprCtx *parser.PathExpressionContext) []core_domain.Cod
 
 func buildBlockStatements(closureContext *parser.ClosureContext) []core_domain.CodeDependency {
 	var results []core_domain.CodeDependency
-	statementsContext := closureContext.BlockStatementsOpt().(*parser.BlockStatementsOptContext).BlockStatements().(*parser.BlockStatementsContext)
+	statementsContext, ok := closureContext.BlockStatementsOpt().(*parser.BlockStatementsOptContext).BlockStatements().(*parser.BlockStatementsContext)
+	if !ok {
+		// dependencies { }
+		return results
+	}
 	for _, blockStatement := range statementsContext.AllBlockStatement() {
 		var result *core_domain.CodeDependency = nil
 
